@@ -377,6 +377,10 @@ impl Coll for CustomsTyped {
         let id = self.ids[p];
         quiet(|| m.customs.get(id).map(|s| s.v)).flatten()
     }
+    fn len(&self, m: &Module) -> i64 {
+        // how many sections of the harness's type the module holds (get_typed sees the first of them)
+        m.customs.iter().filter(|(_, s)| s.as_any().is::<Tagged>()).count() as i64
+    }
     fn iter(&self, m: &Module) -> Vec<(usize, u32)> {
         m.customs
             .iter()
@@ -449,6 +453,14 @@ pub fn replay(coll: &str, hid: &str, ops: &[Op]) -> Value {
                 events.push(json!({"op": "get", "rid": rid, "found": r.is_some(), "v": r.unwrap_or(0)}));
             }
             "iter" => {
+                if coll == "customs_typed" {
+                    // there is no raw section of that name: the answer is None and nothing else happens
+                    let r = quiet(|| m.customs.remove_raw("wv.tagged"));
+                    if !matches!(r, Some(None)) {
+                        events.push(json!({"op": "iter", "items": [[usize::MAX, 0]], "len": -1}));
+                        continue;
+                    }
+                }
                 let items = c.iter(&m);
                 let mut ev = json!({"op": "iter", "items": items, "len": c.len(&m)});
                 if let Some(im) = quiet(|| c.iter_mut(&mut m)).unwrap_or(Some(vec![(usize::MAX, 0)])) {
